@@ -2,6 +2,7 @@
 EXTENDS OutputGeobox, TraceIO
 Verdict(e) == IF e.outcome # "ok" THEN "reject:raised_" \o e.outcome
               ELSE LET u == UtmV(e) IN IF u # "ok" THEN "reject:" \o u
+              ELSE IF e.c.source = "point" THEN "ok"          \* CRS.utm asked directly: only the UTM clauses apply
               ELSE LET v == OutV(e) IN IF v = "ok" THEN "ok" ELSE IF v = "skip" THEN "skip" ELSE "reject:" \o v
 VARIABLE l
 TInit == l = 1
